@@ -5,9 +5,14 @@
    [joins sepp l] is Python's sepp.join(l)).  Side conditions:
      - the fields contain neither sepc nor NL (part of [wf sepc p]); file theorems need sepc <> NL;
      - the first/last character of each line survives strip() (part of [wf]);
-     - the first PSM line does not start with "DefaultDirection" (part of [wf], stated on the line);
+     - the first PSM line, if there is one, does not start with "DefaultDirection" (part of [wf],
+       stated on the line);
      - for the OUTPUT to be valid / a fixed point additionally [out_ok sepc sepp p]: sepp contains
        neither sepc nor NL and the converted first PSM line does not start with "DefaultDirection".
+   The number of PSMs is NOT restricted: [wf] holds for a PIN that is only its header, or header +
+   DefaultDirection line ([rows p = []]; /repo acb0557 made is_valid_tsv / pin_to_valid_tsv accept
+   these), and every theorem below covers them: the conversion is the header line, it is valid, and
+   converting it again changes nothing.
    Nothing is left for the default separators only; the default instances (convert_file, is_valid of
    Model/Fs.v) are corollaries at the end. *)
 From Mokaverif Require Import Model.Base Model.PinTsv Model.PinVerify Proofs.PinTsvP Proofs.PinVerifyP.
@@ -23,8 +28,8 @@ Theorem C19_line : forall sepc sepp (pre prots post : list str) idx ncol,
 Proof. exact convert_line_ok. Qed.
 Print Assumptions C19_line.
 
-(* same header, one line per PSM in order (the first one included), DefaultDirection dropped,
-   final newline immaterial *)
+(* same header, one line per PSM in order (the first one included; none for a PIN without PSMs),
+   DefaultDirection dropped, final newline immaterial *)
 Theorem C19_file : forall sepc sepp final_nl p, sepc <> NL -> wf sepc p ->
   convert_file_sep sepc sepp (render_pin sepc final_nl p) = Ok (render_tsv sepc sepp p).
 Proof. exact convert_file_ok. Qed.
@@ -40,13 +45,23 @@ Theorem C19_idempotent : forall sepc sepp p, sepc <> NL -> wf sepc p -> out_ok s
 Proof. exact convert_idempotent. Qed.
 Print Assumptions C19_idempotent.
 
+(* reported valid exactly when: there is a header line, the line after it (if any) is no
+   DefaultDirection line, every line after the header has the header's number of separators
+   (a text that is only its header is valid) *)
 Theorem C19_valid_iff : forall sepc txt,
   is_valid_sep sepc txt = Ok true <->
-  exists h l2 more, lines_of txt = h :: l2 :: more /\
-    prefixb DEFAULTDIRECTION l2 = false /\
-    Forall (fun l => zcount sepc l = zcount sepc h) (l2 :: more).
+  exists h rest, lines_of txt = h :: rest /\
+    match rest with l2 :: _ => prefixb DEFAULTDIRECTION l2 = false | [] => True end /\
+    Forall (fun l => zcount sepc l = zcount sepc h) rest.
 Proof. exact is_valid_iff. Qed.
 Print Assumptions C19_valid_iff.
+
+(* is_valid_tsv answers on every text but the empty one (next(f_in) on a stream without lines) *)
+Theorem C19_valid_decided : forall sepc txt,
+  (txt <> [] -> exists b, is_valid_sep sepc txt = Ok b) /\
+  (txt = [] -> is_valid_sep sepc txt = Err EStopIteration).
+Proof. exact is_valid_decided. Qed.
+Print Assumptions C19_valid_decided.
 
 (* field-level sufficient conditions for the two "DefaultDirection" clauses of wf / out_ok *)
 Theorem C19_dd_clause_line : forall sepc r,
@@ -76,9 +91,9 @@ Print Assumptions C19_file_default.
 
 Theorem C19_valid_iff_default : forall txt,
   is_valid txt = Ok true <->
-  exists h l2 more, lines_of txt = h :: l2 :: more /\
-    prefixb DEFAULTDIRECTION l2 = false /\
-    Forall (fun l => zcount TAB l = zcount TAB h) (l2 :: more).
+  exists h rest, lines_of txt = h :: rest /\
+    match rest with l2 :: _ => prefixb DEFAULTDIRECTION l2 = false | [] => True end /\
+    Forall (fun l => zcount TAB l = zcount TAB h) rest.
 Proof. exact is_valid_default_iff. Qed.
 Print Assumptions C19_valid_iff_default.
 
@@ -90,8 +105,9 @@ Theorem C19_out_ok_default : forall p, wf TAB p ->
 Proof. exact default_out_ok. Qed.
 Print Assumptions C19_out_ok_default.
 
-(* the CLI's verify step on one well-formed PIN file (Model/PinVerify.v: is_valid_tsv, then
-   pin_to_valid_tsv unless it said "valid", both with the default separators): it does not raise;
+(* the CLI's verify step on one well-formed PIN file -- with or without PSMs -- (Model/PinVerify.v:
+   is_valid_tsv, then pin_to_valid_tsv unless it said "valid", both with the default separators): it
+   does not raise;
    the file is either left as it was (it was valid) or replaced by the rectangular table; what it
    holds afterwards is valid, and running the step again changes nothing *)
 Theorem C19_verify_step : forall final_nl p, wf TAB p -> out_ok TAB [COLON] p ->
@@ -174,3 +190,71 @@ Example C19_ex_verify :
   pin_verify_text (render_pin TAB false ex_pin) = Ok (render_tsv TAB [COLON] ex_pin) /\
   pin_verify_text (render_tsv TAB [COLON] ex_pin) = Ok (render_tsv TAB [COLON] ex_pin).
 Proof. split; vm_compute; reflexivity. Qed.
+
+(* ---------- PINs without any PSM (rows = []) ---------- *)
+(* header only, and header + DefaultDirection line; both are well-formed, for every separator pair
+   the output condition holds, and the theorems above apply to them *)
+Definition ex_hdr_only (sepc : Z) : pin :=
+  {| hdr_pre := [[105;100]]; hdr_post := [[120]]; dd := None; rows := [] |}.
+Definition ex_hdr_dd (sepc : Z) : pin :=
+  {| hdr_pre := [[105;100]]; hdr_post := [[120]];
+     dd := Some (DEFAULTDIRECTION ++ [sepc;45;sepc;45]); rows := [] |}.
+
+Ltac c19_wf0 :=
+  unfold wf, ex_hdr_only, ex_hdr_dd, hdr, wf_row, field_ok, first_ok, last_ok; simpl;
+  repeat match goal with
+  | |- _ /\ _ => split
+  | |- Forall _ _ => constructor
+  | |- ~ _ => let H := fresh in intros H; simpl in H; intuition discriminate
+  | |- _ <> _ => discriminate
+  | |- True => exact I
+  | |- _ = _ => reflexivity
+  end;
+  try (eexists _, [_]; split; [reflexivity|reflexivity]);
+  try (eexists _, []; split; [reflexivity|reflexivity]);
+  try (eexists _, [_;_;_;_;_;_;_;_;_;_;_;_;_;_;_;_;_;_;_]; split; [reflexivity|reflexivity]).
+
+Example C19_wf_header_only : wf TAB (ex_hdr_only TAB) /\ wf COMMA (ex_hdr_only COMMA).
+Proof. split; c19_wf0. Qed.
+
+Example C19_wf_header_dd : wf TAB (ex_hdr_dd TAB) /\ wf COMMA (ex_hdr_dd COMMA).
+Proof. split; c19_wf0. Qed.
+
+Example C19_out_ok_zero_psm :
+  out_ok TAB [COLON] (ex_hdr_only TAB) /\ out_ok TAB [COLON] (ex_hdr_dd TAB) /\
+  out_ok COMMA BARS (ex_hdr_only COMMA) /\ out_ok COMMA BARS (ex_hdr_dd COMMA).
+Proof.
+  unfold out_ok. simpl.
+  repeat match goal with
+  | |- _ /\ _ => split
+  | |- ~ _ => let H := fresh in intros H; simpl in H; intuition discriminate
+  | |- True => exact I
+  end.
+Qed.
+
+(* "id\tProteins\tx" with and without final newline: valid as it is, converted to header + NL, the
+   verify step leaves it alone *)
+Example C19_ex_header_only_runs :
+  render_pin TAB true (ex_hdr_only TAB) = [105;100;9;80;114;111;116;101;105;110;115;9;120;10] /\
+  is_valid (render_pin TAB true (ex_hdr_only TAB)) = Ok true /\
+  is_valid (render_pin TAB false (ex_hdr_only TAB)) = Ok true /\
+  convert_file (render_pin TAB true (ex_hdr_only TAB)) = Ok (render_pin TAB true (ex_hdr_only TAB)) /\
+  convert_file (render_pin TAB false (ex_hdr_only TAB)) = Ok (render_pin TAB true (ex_hdr_only TAB)) /\
+  render_tsv TAB [COLON] (ex_hdr_only TAB) = render_pin TAB true (ex_hdr_only TAB) /\
+  pin_verify_text (render_pin TAB false (ex_hdr_only TAB)) = Ok (render_pin TAB false (ex_hdr_only TAB)) /\
+  is_valid [] = Err EStopIteration /\ convert_file [] = Err EStopIteration.
+Proof. repeat split; vm_compute; reflexivity. Qed.
+
+(* header + DefaultDirection line: not valid, converted to the header line, which is valid and a
+   fixed point; the verify step replaces the file by the header line and then leaves it alone *)
+Example C19_ex_header_dd_runs :
+  is_valid (render_pin TAB true (ex_hdr_dd TAB)) = Ok false /\
+  is_valid (render_pin TAB false (ex_hdr_dd TAB)) = Ok false /\
+  convert_file (render_pin TAB false (ex_hdr_dd TAB)) = Ok (render_tsv TAB [COLON] (ex_hdr_dd TAB)) /\
+  render_tsv TAB [COLON] (ex_hdr_dd TAB) = [105;100;9;80;114;111;116;101;105;110;115;9;120;10] /\
+  is_valid (render_tsv TAB [COLON] (ex_hdr_dd TAB)) = Ok true /\
+  convert_file (render_tsv TAB [COLON] (ex_hdr_dd TAB)) = Ok (render_tsv TAB [COLON] (ex_hdr_dd TAB)) /\
+  pin_verify_text (render_pin TAB true (ex_hdr_dd TAB)) = Ok (render_tsv TAB [COLON] (ex_hdr_dd TAB)) /\
+  pin_verify_text (render_tsv TAB [COLON] (ex_hdr_dd TAB)) = Ok (render_tsv TAB [COLON] (ex_hdr_dd TAB)) /\
+  is_valid_sep COMMA (render_tsv COMMA BARS (ex_hdr_dd COMMA)) = Ok true.
+Proof. repeat split; vm_compute; reflexivity. Qed.
